@@ -240,8 +240,10 @@ def holdsPair [DecidableEq α] (o : PairObs α) : Verdict :=
     chk "accessors-changed-content" (decide (o.a' = o.a) && decide (o.b' = o.b)),
     chk "eq-iff-content" (o.checks.all (checkOk o.a o.b)),
     chk "no-checkpoint" (!o.checks.isEmpty),
-    chk "exports-of-equal-tables-differ" (decide (o.a = o.b → ∀ e ∈ o.exports, e.2.1 = e.2.2)),
-    chk "queries-of-equal-tables-differ" (decide (o.a = o.b → ∀ q ∈ o.queries, q.2.1 = q.2.2))]
+    chk "exports-of-equal-tables-differ"
+      (!decide (o.a = o.b) || o.exports.all (fun e => decide (e.2.1 = e.2.2))),
+    chk "queries-of-equal-tables-differ"
+      (!decide (o.a = o.b) || o.queries.all (fun q => decide (q.2.1 = q.2.2)))]
 
 /-- a family of tables with the full matrix of observed `==` results -/
 structure FamilyObs (α : Type) where
